@@ -231,7 +231,49 @@ def _locals_behind(c, local, depth=10):
     return seen
 
 
+def check_index_positions(db, chk):
+    """"looking a live row id up returns that row": the row id index walks a fragment's sequence segment by segment and derives
+    each row's address from two running counters.  Every segment consumes its positions whether or not it contributes a chunk
+    (all of its rows may be deleted), so the counters advance by the segment's length on EVERY path out of the per-segment step."""
+    R = "DOM-index-positions"
+    chk.rule(R, "RowIdIndex: the per-segment offset / address counters advance on every path through a segment")
+    f = db.one(r"^rowids::index::decompose_sequence$", file="lance-table/src/rowids/index.rs")
+    steps = [g for g in f.family() if g.kind == "closure" and {"current_offset", "start_address"} <= {u["name"] for u in g.upvars} and
+             any(has_name(t, "U64Segment::len") for _, t in g.cfg.calls())]
+    if len(steps) != 1:
+        raise AnchorMissing("decompose_sequence: per-segment closure not found (%d)" % len(steps))
+    g = steps[0]
+    chk.analysed(g)
+    c = g.cfg
+    rets = c.return_blocks()
+    for name in ("current_offset", "start_address"):
+        st = [(i, s) for i, j, s in c.stmts() if s.get("lhs") and any(isinstance(e, dict) and str(e.get("f", "")) == "^" + name for e in s["lhs"])]
+        ok = len(st) >= 1
+        by_len = False
+        esc = []
+        if ok:
+            r_wo = c.reachable_from([0], include_start=True, avoid=[i for i, _ in st])
+            esc = [r for r in rets if r in r_wo]
+            o = set()
+            for i, s in st:
+                o |= c.op_origins(s["rv"]["op"], transparent=lambda t: True) if s["rv"]["r"] == "use" else set()
+            by_len = origin_has_call(o, "U64Segment::len")
+            ok = not esc and by_len
+        chk.ob(R, "advances-on-every-path:%s" % name, ok,
+               "%s is advanced by the segment's length (%s) on every path out of the per-segment step (returns reachable without it: %s)" % (
+                   name, by_len, esc or "none"), g.loc(st[0][1]["ln"]) if st else g.loc())
+    # the deleted-row test and the address use those counters plus the position inside the segment
+    okc = False
+    for k in f.family():
+        kc = k.cfg
+        for _, t in calls(k, "DeletionVector::contains"):
+            oc = kc.op_origins(t["args"][1], transparent=lambda t: True)
+            okc = okc or ("upvar", "current_offset") in oc or any(x[0] == "field" and str(x[1]).endswith("current_offset") for x in oc)
+    chk.ob(R, "deleted-test-uses-fragment-offset", okc, "the deletion vector is consulted with current_offset + position in segment", g.loc())
+
+
 def run(db, chk):
     check_assign(db, chk)
     check_build(db, chk)
+    check_index_positions(db, chk)
     chk.assume("u64 addition with overflow check (debug) / no realistic overflow of the row-id counter")
